@@ -198,7 +198,7 @@ def edit_program(rng, rules):
     return new
 
 
-def gen_history(rng, rules, nops, cancel=False, threads=False, allow_restart=True, allow_revert=True, crash=False, reprogram=False):
+def gen_history(rng, rules, nops, cancel=False, threads=False, allow_restart=True, allow_revert=True, crash=False, reprogram=False, foreign_cancel=False):
     """list of op dicts.  Builds carry a random completion schedule; with `cancel`, some builds are
     cancelled at a random event or hook point."""
     keys = sorted(rules)
@@ -252,6 +252,10 @@ def gen_history(rng, rules, nops, cancel=False, threads=False, allow_restart=Tru
                     i = rng.below(len(items))
                     items[i] = (1, items[i][1])
             mode = 1 if threads and rng.chance(1, 2) else 0
+            if foreign_cancel and rng.chance(2, 3):
+                # free completion threads and a cancellation issued by a third thread late in the build
+                mode, cancel_at = 2, 6 + rng.below(60)
+                items = [(0, ks) for _, ks in items]
             if crash and rng.chance(1, 3):
                 # the process is killed before its n-th event (at the latest right before the commit)
                 ops.append({"op": "K", "key": tgt, "cancel_at": 3 + rng.below(60), "mode": 0, "items": [(0, ks) for _, ks in items]})
@@ -451,6 +455,11 @@ def analyse_case(case, houts, focus):
         err = any(e[0] == "ER" for e in tr)
         ret = next((e for e in tr if e[0] == "R"), None)
         tail = next((e for e in tr if e[0] == "Z"), None)
+        if any(e and e[0] == "QV" for e in tr):
+            fails.append({"what": "the engine destroyed its execution queue while a concurrent cancelBuild() was still inside "
+                                  "ExecutionQueue::cancelAllJobs() (use after destruction; the cancellation came from a foreign thread near the end of the build)",
+                          "kind": "queue-lifetime", "input": where})
+            tr = [e for e in tr if e and e[0] != "QV"]
         if ret is None or tail is None:
             fails.append({"what": "build did not return (truncated trace)", "kind": "stall", "input": where})
             continue
